@@ -14,6 +14,11 @@ T1  `interp_sound`         interpreter accepts  ⇒  Script accepts, with a clea
         for `z`), j:, thresh, multi, multi_a (need the script-number codec round trip on
         SIZE / ADD results and CHECKMULTISIG's key walk).
       * `interp_fragment_sound_partial`  the simulation per base type (B / V / K / W)
+      * `interp_accept_imp_script_accepts_partial`  composition with `Thm/Bridge.lean`: the flat
+        opcode interpreter accepts the encoded script
+      The lock-value side condition `LockOk` (script-number codec round trip) holds for every
+      `0 < n < 2^31` by `SatSpec.numOk_of_lt` (Lemmas/SatNum.lean, C01); it is kept as a hypothesis
+      here so that this file does not depend on another property's lemma files.
 T2  `constraints_checked`  every reported constraint was checked successfully (ALL fragments) and
       holds in Script's environment (`constraints_hold_for_script`)
 Findings, proved on the model as counterexamples to the unconditional statement:
@@ -22,6 +27,7 @@ Findings, proved on the model as counterexamples to the unconditional statement:
 -/
 import MsVerif.Lemmas.InterpSound
 import MsVerif.Lemmas.InterpConstraints
+import MsVerif.Thm.Bridge
 
 namespace MsVerif.C13
 open MsVerif Script Interp InterpSound
@@ -97,6 +103,17 @@ theorem interp_sound_partial {env : Env} {ke : KeyEnv} {ie : IEnv} {ctx : Ctx}
         obtain ⟨v, o, hf, hr⟩ := F [] [] 0
         exact ⟨v, o, by simpa using hf, (hr.sat rfl).1⟩
 
+/-- T1 composed with the bridge theorem (`Thm/Bridge.lean`): the FLAT opcode interpreter
+`Script.run` accepts the ENCODED script on the very stack the transaction interpreter accepted
+(CLEANSTACK form: exactly one true element is left) -/
+theorem interp_accept_imp_script_accepts_partial {env : Env} {ke : KeyEnv} {ie : IEnv} {ctx : Ctx}
+    (hl : NoLimits env) (ag : Agree env ie) (ms : Ms) (hs : Sup env ke ms) (ty : Ty)
+    (hty : typeOf ms = some ty) (hb : ty.corr.base = .B) (c : List Bytes) (cs : List Constraint)
+    (hi : interpTop ke ie ms (absS c) = .ok cs) :
+    accepts env (encode ke ctx ms) c = true := by
+  obtain ⟨v, o, hf, hv⟩ := interp_sound_partial (ctx := ctx) hl ag ms hs ty hty hb c cs hi
+  exact (Bridge.accepts_iff_frag_nolimits env ke ctx ms c ⟨hl.op, hl.st⟩).mpr ⟨_, v, hf, rfl, hv⟩
+
 /-! ### T2 -/
 
 /-- every constraint the interpreter reports was checked successfully by it — for ALL fragments
@@ -159,31 +176,31 @@ def ke0 : KeyEnv := ⟨fun _ => [], fun _ => [], fun _ => [], fun _ => [], fun _
 def flags0 : Flags := ⟨false, true, true, true, true, false, false⟩
 /-- nLockTime 100, nSequence `lsq`, version `ver`; no valid signatures, irrelevant hashes -/
 def envOf (lsq ver : Nat) : Env := ⟨flags0, fun _ _ => false, fun _ _ => [], 100, lsq, ver⟩
-def ieOf (lsq : Nat) : IEnv := ⟨fun _ _ => false, fun _ => false, fun _ => [], fun _ _ => [], 100, lsq⟩
+def ieOf (lsq ver : Nat) : IEnv := ⟨fun _ _ => false, fun _ => false, fun _ => [], fun _ _ => [], 100, lsq, ver⟩
 
 /-- `after(100)` with nLockTime = 100 on a FINAL input: the interpreter reports the lock as
 satisfied, `OP_CHECKLOCKTIMEVERIFY` fails (BIP65).  `evaluate_after` never looks at nSequence. -/
 theorem interp_unsound_cltv_final_sequence :
-    interpTop ke0 (ieOf 4294967295) (.after 100) [] = .ok [.after 100]
+    interpTop ke0 (ieOf 4294967295 2) (.after 100) [] = .ok [.after 100]
     ∧ frag (envOf 4294967295 2) ke0 .segwitv0 (.after 100) ⟨[], [], 0⟩ = .error .unsatisfiedLocktime := by
   constructor <;> rfl
 
 /-- `older(10)` with nSequence = 10 in a VERSION-1 transaction: the interpreter reports the lock
 as satisfied, `OP_CHECKSEQUENCEVERIFY` fails (BIP112).  The interpreter never sees the version. -/
 theorem interp_unsound_csv_tx_version_1 :
-    interpTop ke0 (ieOf 10) (.older 10) [] = .ok [.older 10]
+    interpTop ke0 (ieOf 10 1) (.older 10) [] = .ok [.older 10]
     ∧ frag (envOf 10 1) ke0 .segwitv0 (.older 10) ⟨[], [], 0⟩ = .error .unsatisfiedLocktime := by
   constructor <;> rfl
 
 /-- in both cases every other clause of the oracle agreement holds, so the two side conditions
 `notFinal` / `version` of `Agree` are exactly what the interpreter fails to check -/
 theorem findings_agree_otherwise :
-    (∀ pk sg, (ieOf 4294967295).verifySig pk sg = true →
+    (∀ pk sg, (ieOf 4294967295 2).verifySig pk sg = true →
         (envOf 4294967295 2).sigOk pk sg = true ∧ pubkeyOk (envOf 4294967295 2) pk = true)
-    ∧ (ieOf 4294967295).lockTime = (envOf 4294967295 2).nLockTime
-    ∧ (ieOf 4294967295).sequence = (envOf 4294967295 2).nSequence
+    ∧ (ieOf 4294967295 2).lockTime = (envOf 4294967295 2).nLockTime
+    ∧ (ieOf 4294967295 2).sequence = (envOf 4294967295 2).nSequence
     ∧ (envOf 4294967295 2).txVersion ≥ 2
-    ∧ (ieOf 10).sequence = (envOf 10 1).nSequence ∧ (envOf 10 1).nSequence ≠ SEQ_FINAL := by
+    ∧ (ieOf 10 1).sequence = (envOf 10 1).nSequence ∧ (envOf 10 1).nSequence ≠ SEQ_FINAL := by
   refine ⟨fun pk sg h => ?_, rfl, rfl, by decide, rfl, by decide⟩
   simp [ieOf] at h
 
@@ -212,7 +229,7 @@ def S0 : Bytes := [0x30, 0x01]
 def keX : KeyEnv := ⟨fun _ => K0, fun _ => K0, fun _ => [], fun _ => [], fun _ _ => []⟩
 def envX : Env := ⟨flags0, fun pk sg => pk == K0 && sg == S0, fun _ _ => [], 100, 10, 2⟩
 def ieX : IEnv := ⟨fun pk sg => pk == K0 && sg == S0, fun _ => false, fun b => envX.hash .hash160 b,
-  fun k b => envX.hash (hkOp k) b, 100, 10⟩
+  fun k b => envX.hash (hkOp k) b, 100, 10, 2⟩
 
 theorem envX_nolimits : NoLimits envX := ⟨rfl, rfl⟩
 
